@@ -4,13 +4,14 @@ def main(tier, args):
     t0 = time.time()
     exe = vf.build("C04/signals", [vf.VERIF + "/checks/C04/harness.cpp"], vf.module_sources("event", exclude=("event/common_loop_signal.cpp",)), mode="asan",
                    plain_srcs=[vf.VERIF + "/engine/sched/log_stub.cpp"])
-    depth, depth_b, depth_c, depth_d, dl = (6, 6, 6, 5, 80) if tier == "quick" else (8, 7, 12, 10, 1200)
+    depth, depth_b, depth_c, depth_c1, depth_ci, depth_d, gen_cap, dl = (6, 6, 6, 5, 5, 5, 1, 80) if tier == "quick" else (8, 7, 12, 9, 9, 9, 2, 1200)
+    cenv = {"VERIF_WORKERS": "2", "C04_GEN_CAP": str(gen_cap)}
     res = vf.Result(); log = open(vf.BUILD + "/C04/log.txt", "w")
     jobs = [("%s:cfg%d:A" % (e, c), [exe, e, str(depth), str(c), "A"]) for e in ("epoll", "select") for c in (0, 1, 2)]
     jobs += [("%s:cfg1:B" % e, [exe, e, str(depth_b), "1", "B"], {"VERIF_WORKERS": "2"}) for e in ("epoll", "select")]
-    jobs += [("%s:cfg%d:C" % (e, c), [exe, e, str(depth_c), str(c), "C"], {"VERIF_WORKERS": "2"}) for e in ("epoll", "select") for c in (0, 1, 2)]
+    jobs += [("%s:cfg%d:C" % (e, c), [exe, e, str(depth_c1 if c == 1 else depth_c), str(c), "C"], cenv) for e in ("epoll", "select") for c in (0, 1, 2)]
     jobs += [("%s:cfg%d:D" % (e, c), [exe, e, str(depth_d), str(c), "D"], {"VERIF_WORKERS": "2"}) for e in ("epoll", "select") for c in (1,)]
-    jobs += [("%s:cfg1:Ci" % e, [exe, e, str(depth_c), "1", "Ci"], {"VERIF_WORKERS": "2"}) for e in ("epoll", "select")]
+    jobs += [("%s:cfg1:Ci" % e, [exe, e, str(depth_ci), "1", "Ci"], cenv) for e in ("epoll", "select")]
     if args.only: jobs = [j for j in jobs if j[0] == args.only]
     vf.run_procs(res, jobs, env={"VERIF_DEADLINE_S": str(dl), "VERIF_WORKERS": "3"}, log=log)
     vf.finish(PID, tier, res, t0,
